@@ -456,3 +456,170 @@ Proof.
     eapply Forall_impl; [|exact Hr]. intros r [R1 R2]. cbv beta.
     rewrite nth_repeat. reflexivity.
 Qed.
+
+(* ================================================================ header retention, whole file ================================================================ *)
+(* the key under which BMSMap.read stores a (stripped) line in its header table, if it is a filled header line *)
+Definition header_key_of (line : text) : option text :=
+  if starts_with [35] line
+  then match split_first 32 line with (k, Some _) => Some (skipn 1 k) | (_, None) => None end
+  else None.
+
+Lemma text_eqb_neq a b : a <> b -> text_eqb a b = false.
+Proof. intro N. destruct (text_eqb a b) eqn:E; [apply text_eqb_eq in E; contradiction|reflexivity]. Qed.
+
+Lemma dict_get_set_other {V} (k k' : text) (v : V) d : k <> k' -> dict_get k (dict_set k' v d) = dict_get k d.
+Proof.
+  intro N. induction d as [|[k2 v2] d IH]; cbn.
+  - rewrite (text_eqb_neq k k' N). reflexivity.
+  - destruct (text_eqb k' k2) eqn:E; cbn.
+    + apply text_eqb_eq in E. subst k2. rewrite (text_eqb_neq k k' N). reflexivity.
+    + destruct (text_eqb k k2); [reflexivity|exact IH].
+Qed.
+
+Lemma dict_get_in {V} (k : text) (v : V) d : dict_get k d = Some v -> In (k, v) d.
+Proof.
+  induction d as [|[k2 v2] d IH]; cbn; [discriminate|].
+  destruct (text_eqb k k2) eqn:E; intro H.
+  - apply text_eqb_eq in E. inversion H; subst. left; reflexivity.
+  - right. apply IH. exact H.
+Qed.
+
+Lemma classify_line_keeps st line st' k :
+  classify_line st line = Some st' -> header_key_of line <> Some k -> dict_get k (fst st') = dict_get k (fst st).
+Proof.
+  destruct st as [hdr notes]. unfold classify_line, header_key_of.
+  destruct (starts_with [35] line); [|intros H _; inversion H; reflexivity].
+  destruct (split_first 32 line) as [w [v|]].
+  - intros H N. inversion H; subst. cbn [fst]. apply dict_get_set_other. intro E. apply N. rewrite E. reflexivity.
+  - intros H _. destruct (nth_error w 1) as [c|]; [|discriminate].
+    destruct (is_digit c); [|inversion H; reflexivity].
+    destruct (split_all 58 w) as [|command [|data [|x r]]]; try discriminate. inversion H; reflexivity.
+Qed.
+
+Lemma classify_lines_keeps k : forall lines st st',
+  classify_lines st lines = Some st' ->
+  (forall l, In l lines -> header_key_of (strip l) <> Some k) ->
+  dict_get k (fst st') = dict_get k (fst st).
+Proof.
+  induction lines as [|l ls IH]; intros st st' H N; cbn in H.
+  - inversion H; reflexivity.
+  - destruct (classify_line st (strip l)) as [s1|] eqn:E; [|discriminate].
+    rewrite (IH s1 st' H) by (intros; apply N; right; assumption).
+    eapply classify_line_keeps; [exact E|]. apply N. left; reflexivity.
+Qed.
+
+Lemma classify_lines_app : forall a b st,
+  classify_lines st (a ++ b) = match classify_lines st a with Some s => classify_lines s b | None => None end.
+Proof.
+  induction a as [|l a IH]; intros b st; cbn; [reflexivity|].
+  destruct (classify_line st (strip l)); [apply IH|reflexivity].
+Qed.
+
+(* a (stripped) header line  #K v  whose key is not set again by a later line ends up in the header table as K -> v,
+   wherever it stands in the text *)
+Theorem header_line_retained (l1 l2 : list text) (k v : text) st st' :
+  ~ In 32 k ->
+  strip ([35] ++ k ++ [32] ++ v) = [35] ++ k ++ [32] ++ v ->
+  (forall l, In l l2 -> header_key_of (strip l) <> Some k) ->
+  classify_lines st (l1 ++ ([35] ++ k ++ [32] ++ v) :: l2) = Some st' ->
+  dict_get k (fst st') = Some v.
+Proof.
+  intros Hk Hs Hl H. rewrite classify_lines_app in H.
+  destruct (classify_lines st l1) as [[hdr notes]|]; [|discriminate].
+  cbn [classify_lines] in H. rewrite Hs in H. rewrite (classify_header_line hdr notes k v Hk) in H.
+  rewrite (classify_lines_keeps k l2 _ _ H Hl). cbn [fst]. apply dict_get_set_same. apply text_eqb_refl.
+Qed.
+
+(* bms_read_header: whenever BMSMap.read succeeds on a text containing the header line  #K v  (K not set again
+   later), the chart retains it: as title / artist / level / LNOBJ for those keys, and in misc for every key that is
+   not #BPM, #BPMxx or #WAV.. *)
+Theorem bms_read_header (tbl : list Q) (cfg : layout) (mk : Z) (l1 l2 : list text) (k v : text) (c : bms_chart) :
+  ~ In 32 k ->
+  strip ([35] ++ k ++ [32] ++ v) = [35] ++ k ++ [32] ++ v ->
+  (forall l, In l l2 -> header_key_of (strip l) <> Some k) ->
+  bms_read tbl cfg mk (l1 ++ ([35] ++ k ++ [32] ++ v) :: l2) = Some c ->
+  (k = K_TITLE -> m_title (c_meta c) = v) /\ (k = K_ARTIST -> m_artist (c_meta c) = v)
+  /\ (k = K_PLAYLEVEL -> m_version (c_meta c) = v) /\ (k = K_LNOBJ -> m_lnobj (c_meta c) = v)
+  /\ (is_exbpm_key k = false -> is_wav_key k = false -> text_eqb K_BPM k = false -> In (k, v) (m_misc (c_meta c))).
+Proof.
+  intros Hk Hs Hl H. unfold bms_read in H.
+  destruct (classify_lines ([], []) _) as [[hdr notes]|] eqn:E; [|discriminate].
+  pose proof (header_line_retained l1 l2 k v _ _ Hk Hs Hl E) as G. cbn [fst] in G.
+  destruct (read_file_header hdr) as [meta|] eqn:E2; [|discriminate].
+  destruct (read_notes tbl cfg mk meta (rev notes)) as [[[hs ls] bp]|]; [|discriminate].
+  inversion H; subst. cbn [c_meta].
+  destruct (read_header_retains hdr meta E2) as [T [A [V [Ln [_ [_ [_ M]]]]]]].
+  rewrite T, A, V, Ln. unfold get_or.
+  repeat split; try (intros ->; rewrite G; reflexivity).
+  intros X W B. apply M; auto. apply dict_get_in. exact G.
+Qed.
+
+(* ================================================================ bms_write_wf: every note line the writer assembles is well-shaped ================================================================ *)
+Definition line_shape (l : text) : Prop :=
+  exists m ch data, l = [35] ++ show3 m ++ ch ++ [58] ++ data /\ Nat.even (length data) = true.
+
+Lemma insert_by_Forall {A} (lt : A -> A -> bool) (P : A -> Prop) x : forall l, P x -> Forall P l -> Forall P (insert_by lt x l).
+Proof.
+  induction l as [|y l IH]; intros Hx Hl; cbn.
+  - constructor; auto.
+  - inversion Hl; subst. destruct (negb (lt y x)); constructor; auto.
+Qed.
+Lemma sort_by_Forall {A} (lt : A -> A -> bool) (P : A -> Prop) : forall l, Forall P l -> Forall P (sort_by lt l).
+Proof.
+  unfold sort_by. induction 1; cbn; [constructor|]. apply insert_by_Forall; assumption.
+Qed.
+
+Lemma group_runs_Forall (P : wslot -> Prop) : forall l cur,
+  Forall P l -> Forall P cur ->
+  Forall (fun g => g <> [] /\ Forall P g) (group_runs l cur).
+Proof.
+  induction l as [|r l IH]; intros cur Hl Hc; cbn.
+  - destruct cur as [|c cur]; [constructor|]. constructor; [|constructor].
+    split; [|apply Forall_rev; assumption].
+    intro E. apply (f_equal (@length _)) in E. rewrite rev_length in E. discriminate.
+  - inversion Hl; subst. destruct cur as [|c cur].
+    + apply IH; auto.
+    + destruct (slot_key_eq c r).
+      * apply IH; auto.
+      * constructor.
+        -- split; [|apply Forall_rev; assumption].
+           intro E. apply (f_equal (@length _)) in E. rewrite rev_length in E. discriminate.
+        -- apply IH; auto.
+Qed.
+
+Lemma all_some'_Forall {A B} (f : A -> option B) (Q : B -> Prop) (R : A -> Prop) :
+  (forall a b, R a -> f a = Some b -> Q b) ->
+  forall l out, Forall R l -> all_some' (map f l) = Some out -> Forall Q out.
+Proof.
+  intros H. induction l as [|a l IH]; intros out Hl E; cbn in E.
+  - inversion E; constructor.
+  - inversion Hl; subst. destruct (f a) as [b|] eqn:Fa; [|discriminate].
+    destruct (all_some' (map f l)) as [r|] eqn:Er; [|discriminate]. inversion E; subst.
+    constructor; [eapply H; eauto|]. apply IH; auto.
+Qed.
+
+(* the line assembly of _write_notes after the slot table is computed *)
+Definition lines_of_slots (slots : list wslot) : option (list text) :=
+  all_some' (map line_of_group (group_runs (sort_by slot_key_lt slots) [])).
+
+Lemma write_note_lines_unfold rows :
+  write_note_lines rows =
+  lines_of_slots (map (fun p => slot_of (fst p) (snd p)) (combine rows (new_dens LCM_THRESHOLD rows))).
+Proof. reflexivity. Qed.
+
+Theorem written_lines_shape (slots : list wslot) (ls : list text) :
+  Forall (fun s => length (ws_value s) = 2%nat /\ 0 <= ws_L s) slots ->
+  lines_of_slots slots = Some ls ->
+  Forall line_shape ls.
+Proof.
+  intros Hs H. unfold lines_of_slots in H.
+  eapply (all_some'_Forall line_of_group line_shape
+            (fun g => g <> [] /\ Forall (fun s => length (ws_value s) = 2%nat /\ 0 <= ws_L s) g)); [| |exact H].
+  - intros g line [Hne Hg] Hl. destruct g as [|r rest]; [contradiction|].
+    inversion Hg as [|? ? [_ HL] _]; subst.
+    destruct (written_line_shape (r :: rest) r rest line eq_refl HL) as [data [E Len]]; auto.
+    + eapply Forall_impl; [|exact Hg]. intros s [A _]. exact A.
+    + exists (ws_measure r), (ws_channel r), data. split; [exact E|].
+      rewrite Len. rewrite Nat.even_mul. reflexivity.
+  - apply group_runs_Forall; [|constructor]. apply sort_by_Forall. exact Hs.
+Qed.
